@@ -102,6 +102,14 @@ def run(chk):
             tgt.status = status
             for c in calls:
                 c['out'] = apply_call(tgt, c['entry'], c['name'], c['v'])
+            if plan.get('copy'):
+                # what redirect() does: a copy of the application's response as a response object of its own, then returned
+                try:
+                    cp = tgt.copy(cls=HTTPResponse)
+                    cp.body = 'body' if status not in (204, 304) else ''
+                    return cp
+                except TypeError:
+                    pass      # (copy() does not support multi-valued headers on this tree)
             return 'body' if status not in (204, 304) else ''
         # HTTPResponse built with constructor arguments, then mutated, then returned or raised
         ctor = [c for c in calls if c['entry'] == 'ctor']
@@ -128,6 +136,12 @@ def run(chk):
         for c in calls:
             if c['entry'] != 'ctor':
                 c['out'] = apply_call(resp, c['entry'], c['name'], c['v'])
+        if plan.get('copy'):
+            # a copy of the response object (what redirect() and error handling work on) carries the same header text
+            try:
+                resp = resp.copy()
+            except TypeError:
+                pass          # (copy() does not support multi-valued headers on this tree: the original is emitted)
         if plan['raise']:
             raise resp
         return resp
@@ -165,7 +179,7 @@ def run(chk):
         if len(set(ctor_names)) != len(ctor_names):
             ctor_kw = False          # keyword arguments cannot repeat a name
         status = rng.choice([200, 200, 204, 304, 404, 201])
-        plan.update(calls=calls, status=status, mode=mode, ctor_kw=ctor_kw, ctor_dict=ctor_dict, **{'raise': rng.random() < 0.4})
+        plan.update(calls=calls, status=status, mode=mode, ctor_kw=ctor_kw, ctor_dict=ctor_dict, copy=rng.random() < 0.3, **{'raise': rng.random() < 0.4})
         st, line, headers, body, nsr = call_app(app, base_environ(PATH_INFO='/h'))
         if st == 500:
             # e.g. content_length reader is not involved; a 500 here means a setter let something through that broke headerlist
